@@ -235,8 +235,42 @@ func (e *Engine) loadSpecs(externDir string) error {
 				e.stale = append(e.stale, fmt.Sprintf("%s: %v", f.Line, err))
 				continue
 			}
-			if _, dup := db.funcs[name]; dup {
-				return fmt.Errorf("%s: duplicate spec for %s", f.Line, name)
+			if old, dup := db.funcs[name]; dup {
+				// several blocks for one function (one per property family): merge
+				old.Requires = append(old.Requires, f.Requires...)
+				old.Ensures = append(old.Ensures, f.Ensures...)
+				old.Before = append(old.Before, f.Before...)
+				old.Sweep = append(old.Sweep, f.Sweep...)
+				old.SweepTags = append(old.SweepTags, f.SweepTags...)
+				old.Counted = append(old.Counted, f.Counted...)
+				old.Holds = append(old.Holds, f.Holds...)
+				old.Waive = append(old.Waive, f.Waive...)
+				old.NoSweep = append(old.NoSweep, f.NoSweep...)
+				for k, v := range f.CallSpecs {
+					old.CallSpecs[k] = v
+				}
+				for k, v := range f.Loops {
+					if ol, ok := old.Loops[k]; ok {
+						ol.Invariants = append(ol.Invariants, v.Invariants...)
+						ol.Increases = append(ol.Increases, v.Increases...)
+						if v.Decreases != nil {
+							ol.Decreases = v.Decreases
+						}
+					} else {
+						old.Loops[k] = v
+					}
+				}
+				if f.HasMod {
+					if old.HasMod && (old.ModAll != f.ModAll || old.Pure != f.Pure) {
+						return fmt.Errorf("%s: conflicting frames for %s", f.Line, name)
+					}
+					old.HasMod, old.ModAll, old.Pure, old.Func = true, f.ModAll, f.Pure, f.Func || old.Func
+					old.Modifies = append(old.Modifies, f.Modifies...)
+				}
+				old.Trusted = old.Trusted || f.Trusted
+				old.Helper = old.Helper || f.Helper
+				old.Inline = old.Inline || f.Inline
+				continue
 			}
 			if fn := e.funcsByName[name]; fn == nil || len(fn.Blocks) == 0 {
 				f.Extern = true // interface method or body-less function: the contract is assumed
